@@ -1,7 +1,269 @@
 package main
 
-// runThorough adds the configuration matrix, the call-graph cross-check and the control corpus.
+import (
+	"bufio"
+	"encoding/json"
+	"fmt"
+	"os"
+	"os/exec"
+	"path/filepath"
+	"sort"
+	"strings"
+	"sync"
+
+	"golang.org/x/tools/go/ssa"
+)
+
+// runThorough adds to the quick result: (i) the same rule set on the configuration matrix
+// {linux/amd64, linux/386, windows/amd64} × {without, with test files}, each in its own process;
+// (ii) a call-graph cross-check (reachable sets under CHA, RTA and VTA); (iii) the control corpus of
+// this property — seeded variants that must be reported and behaviour-preserving refactors that must
+// stay silent — each applied to a scratch copy of the repository in a fresh temporary directory,
+// analysed in a separate process and removed at once. Control outcomes are evidence only: a patch
+// that no longer applies to an edited tree is skipped, never failed.
 func runThorough(p *Prog, r *Report, d *propDef, repo, verif string, noControls bool) {
+	self, err := os.Executable()
+	if err != nil {
+		r.Note("thorough: cannot locate own executable: %v", err)
+		return
+	}
+	// ---- (ii) call graphs
+	r.Rule("CG", "exact", 1, "call-graph cross-check: the set of in-module functions reachable from the API is the same under CHA, RTA and VTA (direct static callees and closures are followed independently of the algorithm)")
+	sets := map[string][]string{}
+	for _, kind := range []string{"vta", "cha", "rta"} {
+		q := *p
+		if err := (&q).buildCallGraph(kind); err != nil {
+			r.Unknown("CG", kind, "-", err.Error())
+			continue
+		}
+		var names []string
+		for _, f := range q.RList {
+			names = append(names, p.shortKey(f))
+		}
+		sort.Strings(names)
+		sets[kind] = names
+	}
+	p.buildCallGraph("vta")
+	base := strings.Join(sets["vta"], "\n")
+	okCG := true
+	for kind, names := range sets {
+		if strings.Join(names, "\n") != base {
+			okCG = false
+			r.Bad("CG", kind, "-", fmt.Sprintf("reachable set under %s differs from VTA: %d vs %d functions", kind, len(names), len(sets["vta"])))
+		}
+	}
+	if okCG {
+		r.OK("CG", "reachable sets", "-", "identical under vta/cha/rta", fmt.Sprintf("%d functions", len(sets["vta"])), true)
+	}
+
+	// ---- (i) configuration matrix
+	r.Rule("CFG", "exact", 5, "the property's rule set gives the same verdict on every build configuration (a file behind a build tag or an architecture-dependent constant cannot hide a violation)")
+	type cfgRes struct {
+		name string
+		out  string
+		code int
+	}
+	var cfgs []Config
+	for _, osarch := range [][2]string{{"linux", "amd64"}, {"linux", "386"}, {"windows", "amd64"}} {
+		for _, tests := range []bool{false, true} {
+			if osarch[0] == "linux" && osarch[1] == "amd64" && !tests {
+				continue // the quick run itself
+			}
+			cfgs = append(cfgs, Config{GOOS: osarch[0], GOARCH: osarch[1], Tests: tests})
+		}
+	}
+	results := make([]cfgRes, len(cfgs))
+	var wg sync.WaitGroup
+	sem := make(chan bool, 6)
+	for i, c := range cfgs {
+		wg.Add(1)
+		go func(i int, c Config) {
+			defer wg.Done()
+			sem <- true
+			defer func() { <-sem }()
+			tmp, err := os.MkdirTemp("", "spdxverif-cfg-")
+			if err != nil {
+				results[i] = cfgRes{c.String(), err.Error(), 2}
+				return
+			}
+			defer os.RemoveAll(tmp)
+			copyFile(filepath.Join(verif, "known_findings.json"), filepath.Join(tmp, "known_findings.json"))
+			args := []string{"check", "-property", r.Property, "-tier", "quick", "-repo", repo, "-verif", tmp, "-goos", c.GOOS, "-goarch", c.GOARCH}
+			if c.Tests {
+				args = append(args, "-tests")
+			}
+			cmd := exec.Command(self, args...)
+			cmd.Env = append(os.Environ(), "VERIF_TIER=quick")
+			out, err := cmd.CombinedOutput()
+			code := 0
+			if err != nil {
+				code = 1
+			}
+			results[i] = cfgRes{c.String(), string(out), code}
+		}(i, c)
+	}
+	wg.Wait()
+	var cfgNames []string
+	for _, cr := range results {
+		cfgNames = append(cfgNames, cr.name)
+		if cr.code == 0 {
+			r.OK("CFG", cr.name, "-", "same verdict", lastLine(cr.out), true)
+		} else {
+			var v []string
+			sc := bufio.NewScanner(strings.NewReader(cr.out))
+			for sc.Scan() {
+				l := strings.TrimSpace(sc.Text())
+				if strings.HasPrefix(l, "violated") || strings.HasPrefix(l, "undecided") {
+					v = append(v, l)
+				}
+			}
+			if len(v) > 3 {
+				v = v[:3]
+			}
+			r.Bad("CFG", cr.name, "-", "under configuration "+cr.name+": "+strings.Join(v, " | "))
+		}
+	}
+	r.Extra["configs"] = append([]string{p.Cfg.String() + " (this run)"}, cfgNames...)
+
+	// ---- (iii) controls
+	if noControls {
+		return
+	}
+	type ctl struct {
+		patch, kind string
+	}
+	var ctls []ctl
+	if b, err := os.ReadFile(filepath.Join(verif, "controls", "expect.tsv")); err == nil {
+		seen := map[string]bool{}
+		for _, line := range strings.Split(string(b), "\n") {
+			if strings.HasPrefix(line, "#") || strings.TrimSpace(line) == "" {
+				continue
+			}
+			f := strings.Split(line, "\t")
+			if len(f) < 3 {
+				continue
+			}
+			for _, pr := range strings.Split(f[2], ",") {
+				if strings.TrimSpace(pr) == r.Property && !seen[f[0]] {
+					seen[f[0]] = true
+					ctls = append(ctls, ctl{f[0], f[1]})
+				}
+			}
+		}
+	}
+	type ctlRes struct {
+		Patch   string `json:"patch"`
+		Kind    string `json:"kind"`
+		Outcome string `json:"outcome"` // fired | silent | skipped
+		Expect  string `json:"expected"`
+		OK      bool   `json:"as_expected"`
+		First   string `json:"first_report,omitempty"`
+	}
+	cres := make([]ctlRes, len(ctls))
+	sem2 := make(chan bool, 8)
+	for i, c := range ctls {
+		wg.Add(1)
+		go func(i int, c ctl) {
+			defer wg.Done()
+			sem2 <- true
+			defer func() { <-sem2 }()
+			res := ctlRes{Patch: c.patch, Kind: c.kind, Expect: map[string]string{"pos": "fired", "neg": "silent"}[c.kind]}
+			defer func() { cres[i] = res }()
+			tmp, err := os.MkdirTemp("", "spdxverif-ctl-")
+			if err != nil {
+				res.Outcome = "skipped"
+				return
+			}
+			defer os.RemoveAll(tmp)
+			scratch := filepath.Join(tmp, "repo")
+			if out, err := exec.Command("rsync", "-a", "--exclude", ".git", repo+"/", scratch+"/").CombinedOutput(); err != nil {
+				res.Outcome = "skipped"
+				res.First = "copy failed: " + string(out)
+				return
+			}
+			pc := exec.Command("patch", "-p1", "-s", "--no-backup-if-mismatch", "-i", filepath.Join(verif, "controls", c.patch))
+			pc.Dir = scratch
+			if _, err := pc.CombinedOutput(); err != nil {
+				res.Outcome = "skipped"
+				res.First = "patch no longer applies to the current tree"
+				res.OK = true
+				return
+			}
+			ev := filepath.Join(tmp, "ev")
+			os.MkdirAll(ev, 0o755)
+			copyFile(filepath.Join(verif, "known_findings.json"), filepath.Join(ev, "known_findings.json"))
+			cmd := exec.Command(self, "check", "-property", r.Property, "-tier", "quick", "-repo", scratch, "-verif", ev)
+			out, err := cmd.CombinedOutput()
+			fired := err != nil && strings.Contains(string(out), "VIOLATION property=")
+			if fired {
+				res.Outcome = "fired"
+				sc := bufio.NewScanner(strings.NewReader(string(out)))
+				for sc.Scan() {
+					l := strings.TrimSpace(sc.Text())
+					if strings.HasPrefix(l, "violated") || strings.HasPrefix(l, "undecided") {
+						if len(l) > 240 {
+							l = l[:240]
+						}
+						res.First = l
+						break
+					}
+				}
+			} else {
+				res.Outcome = "silent"
+			}
+			res.OK = res.Outcome == res.Expect
+		}(i, c)
+	}
+	wg.Wait()
+	nOK, nBad, nSkip := 0, 0, 0
+	for _, c := range cres {
+		switch {
+		case c.Outcome == "skipped":
+			nSkip++
+		case c.OK:
+			nOK++
+		default:
+			nBad++
+			r.Note("control %s (%s) was %s, expected %s", c.Patch, c.Kind, c.Outcome, c.Expect)
+		}
+	}
+	r.Extra["controls"] = cres
+	r.Extra["controls_summary"] = map[string]int{"as_expected": nOK, "not_as_expected": nBad, "skipped": nSkip}
 }
 
-func cmdExplain(args []string) int { return 0 }
+func lastLine(s string) string {
+	s = strings.TrimSpace(s)
+	if i := strings.LastIndex(s, "\n"); i >= 0 {
+		return s[i+1:]
+	}
+	return s
+}
+
+func copyFile(src, dst string) {
+	if b, err := os.ReadFile(src); err == nil {
+		os.WriteFile(dst, b, 0o644)
+	}
+}
+
+// cmdExplain re-reads a replay file and prints the obligation with its rule.
+func cmdExplain(args []string) int {
+	if len(args) < 1 {
+		fmt.Fprintln(os.Stderr, "usage: spdxverif explain <replay.json>")
+		return 2
+	}
+	b, err := os.ReadFile(args[0])
+	if err != nil {
+		fmt.Fprintln(os.Stderr, err)
+		return 2
+	}
+	var m map[string]any
+	if err := json.Unmarshal(b, &m); err != nil {
+		fmt.Fprintln(os.Stderr, err)
+		return 2
+	}
+	fmt.Printf("property : %v\nrule     : %v — %v\nconstruct: %v\nwhere    : %v\nstatus   : %v\nreason   : %v\n", m["property"], m["rule"], m["rule_doc"], m["construct"], m["pos"], m["status"], m["reason"])
+	fmt.Printf("\nto re-decide on the current tree: bin/spdxverif check -property %v -tier quick\n", m["property"])
+	return 0
+}
+
+var _ = ssa.BuilderMode(0)
